@@ -101,19 +101,172 @@ Proof.
   repeat split; now apply N.eqb_eq.
 Qed.
 
+Local Opaque mul2 mul3 mul9 mul11 mul13 mul14 x4.
+
 Lemma inv_mix_column a b c d : a < 256 -> b < 256 -> c < 256 -> d < 256 ->
   inv_mix_columns (mix_columns [a; b; c; d]) = [a; b; c; d].
 Proof.
   intros Ha Hb Hc Hd. cbn [mix_columns inv_mix_columns].
   pose proof (mul2_lt a Ha). pose proof (mul2_lt b Hb). pose proof (mul2_lt c Hc). pose proof (mul2_lt d Hd).
   pose proof (mul3_lt a Ha). pose proof (mul3_lt b Hb). pose proof (mul3_lt c Hc). pose proof (mul3_lt d Hd).
-  rewrite !(linear_x4 mul9), !(linear_x4 mul11), !(linear_x4 mul13), !(linear_x4 mul14)
-    by first [apply mul9_linear|apply mul11_linear|apply mul13_linear|apply mul14_linear|assumption].
-  rewrite !x4_transpose.
+  rewrite (linear_x4 mul9 (mul2 a) (mul3 b) c d mul9_linear) by assumption.
+  rewrite (linear_x4 mul9 a (mul2 b) (mul3 c) d mul9_linear) by assumption.
+  rewrite (linear_x4 mul9 a b (mul2 c) (mul3 d) mul9_linear) by assumption.
+  rewrite (linear_x4 mul9 (mul3 a) b c (mul2 d) mul9_linear) by assumption.
+  rewrite (linear_x4 mul11 (mul2 a) (mul3 b) c d mul11_linear) by assumption.
+  rewrite (linear_x4 mul11 a (mul2 b) (mul3 c) d mul11_linear) by assumption.
+  rewrite (linear_x4 mul11 a b (mul2 c) (mul3 d) mul11_linear) by assumption.
+  rewrite (linear_x4 mul11 (mul3 a) b c (mul2 d) mul11_linear) by assumption.
+  rewrite (linear_x4 mul13 (mul2 a) (mul3 b) c d mul13_linear) by assumption.
+  rewrite (linear_x4 mul13 a (mul2 b) (mul3 c) d mul13_linear) by assumption.
+  rewrite (linear_x4 mul13 a b (mul2 c) (mul3 d) mul13_linear) by assumption.
+  rewrite (linear_x4 mul13 (mul3 a) b c (mul2 d) mul13_linear) by assumption.
+  rewrite (linear_x4 mul14 (mul2 a) (mul3 b) c d mul14_linear) by assumption.
+  rewrite (linear_x4 mul14 a (mul2 b) (mul3 c) d mul14_linear) by assumption.
+  rewrite (linear_x4 mul14 a b (mul2 c) (mul3 d) mul14_linear) by assumption.
+  rewrite (linear_x4 mul14 (mul3 a) b c (mul2 d) mul14_linear) by assumption.
   destruct (mix_matrix a Ha) as (A0 & A1 & A2 & A3 & A4 & A5 & A6 & A7 & A8 & A9 & A10 & A11 & A12 & A13 & A14 & A15).
   destruct (mix_matrix b Hb) as (B0 & B1 & B2 & B3 & B4 & B5 & B6 & B7 & B8 & B9 & B10 & B11 & B12 & B13 & B14 & B15).
   destruct (mix_matrix c Hc) as (C0 & C1 & C2 & C3 & C4 & C5 & C6 & C7 & C8 & C9 & C10 & C11 & C12 & C13 & C14 & C15).
   destruct (mix_matrix d Hd) as (D0 & D1 & D2 & D3 & D4 & D5 & D6 & D7 & D8 & D9 & D10 & D11 & D12 & D13 & D14 & D15).
-  rewrite A0, B1, C2, D3, A4, B5, C6, D7, A8, B9, C10, D11, A12, B13, C14, D15.
-  now rewrite x4_v000, x4_0v00, x4_00v0, x4_000v.
+  f_equal; [|f_equal; [|f_equal; [|f_equal]]]; rewrite x4_transpose.
+  - rewrite A0, B1, C2, D3. apply x4_v000.
+  - rewrite A4, B5, C6, D7. apply x4_0v00.
+  - rewrite A8, B9, C10, D11. apply x4_00v0.
+  - rewrite A12, B13, C14, D15. apply x4_000v.
 Qed.
+
+Lemma inv_mix_mix : forall n s, (length s <= n)%nat -> ok s -> inv_mix_columns (mix_columns s) = s.
+Proof.
+  induction n as [|n IH]; intros s Hl Hs.
+  - destruct s; [reflexivity|cbn [length] in Hl; lia].
+  - destruct s as [|a [|b [|c [|d r]]]]; try reflexivity.
+    rewrite !ok_cons in Hs. destruct Hs as (Ha & Hb & Hc & Hd & Hr).
+    pose proof (inv_mix_column a b c d Ha Hb Hc Hd) as Hcol.
+    cbn [mix_columns inv_mix_columns] in Hcol |- *.
+    injection Hcol as E0 E1 E2 E3. rewrite E0, E1, E2, E3.
+    rewrite IH; [reflexivity|cbn [length] in Hl; lia|exact Hr].
+Qed.
+
+(* ---- rounds ---- *)
+Definition estep (s k : bytes) : bytes := add_round_key (mix_columns (shift_rows (sub_bytes s))) k.
+Definition dstep (t k : bytes) : bytes := inv_mix_columns (add_round_key (inv_sub_bytes (inv_shift_rows t)) k).
+
+Lemma enc_rounds_snoc mid : forall s kN,
+  enc_rounds s (mid ++ [kN]) = add_round_key (shift_rows (sub_bytes (fold_left estep mid s))) kN.
+Proof.
+  induction mid as [|k m IH]; intros s kN; [reflexivity|].
+  destruct m as [|k' m'].
+  - reflexivity.
+  - change (enc_rounds s ((k :: k' :: m') ++ [kN])) with (enc_rounds (estep s k) ((k' :: m') ++ [kN])).
+    rewrite IH. reflexivity.
+Qed.
+
+Lemma dec_rounds_snoc rm : forall t k0,
+  dec_rounds t (rm ++ [k0]) = add_round_key (inv_sub_bytes (inv_shift_rows (fold_left dstep rm t))) k0.
+Proof.
+  induction rm as [|k m IH]; intros t k0; [reflexivity|].
+  destruct m as [|k' m'].
+  - reflexivity.
+  - change (dec_rounds t ((k :: k' :: m') ++ [k0])) with (dec_rounds (dstep t k) ((k' :: m') ++ [k0])).
+    rewrite IH. reflexivity.
+Qed.
+
+Lemma estep_ok s k : ok k -> ok (estep s k).
+Proof.
+  intros Hk. unfold estep, add_round_key. apply xor_into_bytes_ok; [|exact Hk].
+  eapply ok_mix_columns; [apply le_n|]. apply ok_shift_rows, ok_map_sbox.
+Qed.
+
+Lemma fold_estep_ok mid : forall s, ok s -> Forall (fun k => ok k) mid -> ok (fold_left estep mid s).
+Proof.
+  induction mid as [|k m IH]; intros s Hs Hm; [exact Hs|].
+  apply Forall_cons_iff in Hm as [Hk Hm]. cbn [fold_left]. apply IH; [apply estep_ok, Hk|exact Hm].
+Qed.
+
+Lemma peel mid : forall s, ok s -> Forall (fun k => ok k) mid ->
+  fold_left dstep (rev mid) (shift_rows (sub_bytes (fold_left estep mid s))) = shift_rows (sub_bytes s).
+Proof.
+  induction mid as [|k m IH] using rev_ind; intros s Hs Hm; [reflexivity|].
+  apply Forall_app in Hm as [Hm Hk]. apply Forall_cons_iff in Hk as [Hk _].
+  rewrite fold_left_app, rev_unit. cbn [fold_left].
+  set (u := fold_left estep m s).
+  assert (Hu : ok u) by (apply fold_estep_ok; assumption).
+  assert (Hd : dstep (shift_rows (sub_bytes (estep u k))) k = shift_rows (sub_bytes u)).
+  { unfold dstep. rewrite inv_shift_rows_shift_rows.
+    rewrite inv_sub_bytes_sub_bytes by (apply estep_ok, Hk).
+    unfold estep, add_round_key. rewrite xor_into_invol.
+    eapply inv_mix_mix; [apply le_n|]. apply ok_shift_rows, ok_map_sbox. }
+  rewrite Hd. apply IH; assumption.
+Qed.
+
+Theorem cipher_inv rk b : (2 <= length rk)%nat -> Forall (fun k => ok k) rk -> ok b ->
+  cipher_dec rk (cipher_enc rk b) = b.
+Proof.
+  intros Hl Hrk Hb. destruct rk as [|k0 rest]; [cbn [length] in Hl; lia|].
+  destruct (exists_last (l := rest)) as (mid & kN & ->); [intros ->; cbn [length] in Hl; lia|].
+  apply Forall_cons_iff in Hrk as [H0 Hrk]. apply Forall_app in Hrk as [Hmid HN].
+  apply Forall_cons_iff in HN as [HN _].
+  unfold cipher_enc, cipher_dec. rewrite enc_rounds_snoc.
+  cbn [rev]. rewrite rev_unit. cbn [app].
+  rewrite dec_rounds_snoc. unfold add_round_key at 2 3. rewrite xor_into_invol.
+  assert (Hs : ok (add_round_key b k0)) by (apply xor_into_bytes_ok; assumption).
+  rewrite peel by assumption.
+  rewrite inv_shift_rows_shift_rows, inv_sub_bytes_sub_bytes by exact Hs.
+  unfold add_round_key. apply xor_into_invol.
+Qed.
+
+(* ---- number of round keys ---- *)
+Lemma expand_key_length n : forall nk i rc rw, length (expand_key n nk i rc rw) = (n + length rw)%nat.
+Proof.
+  induction n as [|n IH]; intros; cbn [expand_key]; [reflexivity|]. rewrite IH. cbn [length]. lia.
+Qed.
+
+Lemma words4_length : forall n k, length k = (4 * n)%nat -> length (words4 k) = n.
+Proof.
+  induction n as [|n IH]; intros k Hk.
+  - destruct k; [reflexivity|discriminate].
+  - destruct k as [|a [|b [|c [|d r]]]]; try (cbn [length] in Hk; lia).
+    cbn [words4 length]. f_equal. apply IH. cbn [length] in Hk. lia.
+Qed.
+
+Lemma group_keys_length : forall n (ws : list bytes), length ws = (4 * n)%nat -> length (group_keys ws) = n.
+Proof.
+  induction n as [|n IH]; intros ws Hw.
+  - destruct ws; [reflexivity|discriminate].
+  - destruct ws as [|a [|b [|c [|d r]]]]; try (cbn [length] in Hw; lia).
+    cbn [group_keys length]. f_equal. apply IH. cbn [length] in Hw. lia.
+Qed.
+
+Lemma round_keys_count key nk : length key = (4 * nk)%nat -> key_len_ok key = true ->
+  length (round_keys key) = (nk + 7)%nat.
+Proof.
+  intros Hk Hok. unfold round_keys. rewrite Hok.
+  replace (Nat.div (length key) 4) with nk by (rewrite Hk, Nat.mul_comm, Nat.div_mul; lia).
+  apply group_keys_length. rewrite rev_length, expand_key_length, rev_length, (words4_length nk key Hk). lia.
+Qed.
+
+Lemma round_keys_ge2 key : key_len_ok key = true -> (2 <= length (round_keys key))%nat.
+Proof.
+  intros Hok. pose proof Hok as H. unfold key_len_ok in H.
+  apply orb_true_iff in H as [H|H]; [apply orb_true_iff in H as [H|H]|]; apply Nat.eqb_eq in H.
+  - rewrite (round_keys_count key 4); [lia|rewrite H; reflexivity|exact Hok].
+  - rewrite (round_keys_count key 6); [lia|rewrite H; reflexivity|exact Hok].
+  - rewrite (round_keys_count key 8); [lia|rewrite H; reflexivity|exact Hok].
+Qed.
+
+(* ---- AES decryption inverts AES encryption ---- *)
+Theorem aes_dec_enc key blk :
+  key_len_ok key = true -> ok key -> length blk = 16%nat -> ok blk ->
+  aes_dec key (aes_enc key blk) = blk.
+Proof.
+  intros Hk Hko Hl Hb.
+  pose proof (aes_enc_length key blk) as Hel.
+  unfold aes_dec. rewrite Hel, Hk. cbn [Nat.eqb andb].
+  unfold aes_enc. rewrite Hl, Hk. cbn [Nat.eqb andb].
+  apply cipher_inv; [apply round_keys_ge2, Hk|apply round_keys_ok, Hko|exact Hb].
+Qed.
+
+Corollary aes256_dec_enc key blk :
+  length key = 32%nat -> ok key -> length blk = 16%nat -> ok blk -> aes_dec key (aes_enc key blk) = blk.
+Proof. intros Hk. apply aes_dec_enc. unfold key_len_ok. rewrite Hk. reflexivity. Qed.
